@@ -18,6 +18,9 @@ pub broadcast axiom fn axiom_string_to_string(s: &String, r: String)
 // [trusted] Display for i32 prints spec_i32_to_string
 pub broadcast axiom fn axiom_i32_to_string(v: &i32, r: String)
     ensures #[trigger] vstd::string::to_string_from_display_ensures::<i32>(v, r) <==> r@ == spec_i32_to_string(*v);
+// [trusted] Display for usize prints spec_usize_to_string
+pub broadcast axiom fn axiom_usize_to_string(v: &usize, r: String)
+    ensures #[trigger] vstd::string::to_string_from_display_ensures::<usize>(v, r) <==> r@ == spec_usize_to_string(*v);
 // [trusted] Display prints zero as "0"
 pub broadcast axiom fn axiom_zero_text()
     ensures #[trigger] spec_i32_to_string(0) == "0"@;
